@@ -9,10 +9,11 @@ from typing import Dict, List
 from .. import kernel
 from ..kernel import Chooser
 from ..worlds import oworld
-from .onto_sim import Population, closure, write, result, PROPS, F2P, RELATABLE
+from .onto_sim import Population, closure, write, write_batch, result, PROPS, F2P, RELATABLE
 
 from krrood.entity_query_language.symbol_graph import SymbolGraph
 
+BATCH_PATHS = {"list": ["assign_container", "assign_container", "extend", "iadd"], "set": ["assign_container", "assign_container", "update", "ior"]}
 PATHS = {"single": ["assign"], "list": ["append", "extend", "assign_container", "insert0", "iadd"], "set": ["add", "update", "assign_container", "ior"]}
 
 
@@ -20,23 +21,24 @@ def generate(rng, cfg: Dict) -> Dict:
     c = Chooser(rng)
     n = c.int(3, 8)
     population, classes = [], {}
+    zones = c.chance(0.3)  # swarm knob: a population that is mostly zones (transitive property with inverse and super)
     for serial in range(n):
         humans = [k for k, v in classes.items() if v == "Human"]
-        cls = c.weighted([("Org", 5), ("Human", 4), ("Boss", 2.5 if humans else 0), ("Dean", 1.5 if humans else 0), ("Envoy", 1.5)])
+        cls = c.weighted([("Org", 5), ("Human", 4), ("Boss", 2.5 if humans else 0), ("Dean", 1.5 if humans else 0), ("Envoy", 1.5), ("Zone", 3.5 if zones else 1.5), ("Officer", 1.5), ("Donor", 0.7), ("Patron", 1.5)])  # (a plain Clerk has no field for the inverse of Member: krrood refuses such an ontology)
         population.append([cls, serial, c.pick(humans)] if cls in ("Boss", "Dean") else [cls, serial])
         classes[serial] = cls
-    cands = [(s, f, t) for s, cs in classes.items() for (dc, f, rc) in RELATABLE if dc == cs for t, ct in classes.items() if ct == rc]
+    cands = [(s, f, t) for s, cs in classes.items() for (dc, f, rc) in RELATABLE if dc == cs for t, ct in classes.items() if oworld.is_a(ct, rc)]
     # krrood itself puts role objects into Org.members (the inverse of HeadOf); asserting such a fact directly is
     # therefore part of the fact space: Member(org, boss) - its inverse lives on the boss's role taker
-    cands += [(s, "members", t) for s, cs in classes.items() if cs == "Org" for t, ct in classes.items() if ct in ("Boss", "Envoy", "Dean")]
+    cands += [(s, "members", t) for s, cs in classes.items() if cs == "Org" for t, ct in classes.items() if ct in ("Boss", "Envoy", "Dean", "Clerk", "Officer")]
     facts: List[list] = []
     focus = c.weighted([("any", 3), ("transitive", 3), ("roles", 2)])
     for _ in range(c.int(1, 9)):
         pool = cands
         if focus == "transitive":
-            pool = [x for x in cands if x[1] in ("sub_org_of", "partners")] or cands
+            pool = [x for x in cands if x[1] in ("sub_org_of", "partners", "part_of", "has_part")] or cands
         elif focus == "roles":
-            pool = [x for x in cands if x[1] in ("head_of", "works_for", "members", "chairs", "dean_of", "employed_by")] or cands
+            pool = [x for x in cands if x[1] in ("head_of", "works_for", "members", "chairs", "dean_of", "employed_by", "reports_to", "enrolled")] or cands
         if not pool:
             break
         s, f, t = c.pick(pool)
@@ -48,8 +50,19 @@ def generate(rng, cfg: Dict) -> Dict:
 
     def delivery(order_):
         out = []
-        for i in order_:
+        done = set()
+        for pos, i in enumerate(order_):
+            if i in done:
+                continue
             kind = PROPS[F2P[(classes[facts[i][0]], facts[i][1])]]["kind"]
+            mates = [j for j in order_[pos + 1:] if j not in done and facts[j][:2] == facts[i][:2] and facts[j][2] != facts[i][2]]
+            if kind != "single" and mates and c.chance(0.4):
+                # several facts about one field are asserted by ONE write (a container assignment, extend, update, +=, |=)
+                group = [i] + mates[: c.int(1, 2)]
+                done.update(group)
+                out.append(["deliver_batch", group, c.pick(BATCH_PATHS[kind])])
+                continue
+            done.add(i)
             out.append(["deliver", i, c.pick(PATHS[kind])])
             if c.chance(0.12):
                 out.append(["deliver", c.pick(order_), c.pick(["append", "add", "assign", "extend", "update"])])  # duplicate delivery
@@ -133,6 +146,25 @@ def _run_order(scenario: Dict, ops: List[list], verdicts, counters, log, tag: st
             log.add(tag, "deliver", list(fact), used)
             before = len(verdicts)
             state = _check_state(pop, delivered, verdicts, f"{tag} after op {n} ({fact} via {used})", counters)
+            if len(verdicts) > before:
+                return None
+        elif kind == "deliver_batch":
+            group = [scenario["facts"][i] for i in op[1] if i < len(scenario["facts"])]
+            group = [g for g in group if g[0] in pop.objs and g[2] in pop.objs and (pop.cls_of[g[0]], g[1]) in F2P]
+            if not group or len({(g[0], g[1]) for g in group}) != 1:
+                counters.inc("ops_skipped")
+                continue
+            s, f = group[0][0], group[0][1]
+            new_facts = [(s, F2P[(pop.cls_of[s], f)], g[2]) for g in group]
+            try:
+                used = write_batch(pop, s, f, [g[2] for g in group], op[2], counters)
+            except Exception as e:
+                verdicts.append(kernel.verdict("C15.exception", f"{tag} op {n}: asserting {new_facts} in one write raised {type(e).__name__}: {e}", aspect="exception", property_name=new_facts[0][1]))
+                return None
+            delivered.update(new_facts)
+            log.add(tag, "deliver_batch", [list(x) for x in new_facts], used)
+            before = len(verdicts)
+            state = _check_state(pop, delivered, verdicts, f"{tag} after op {n} ({new_facts} via one {used})", counters)
             if len(verdicts) > before:
                 return None
         elif kind == "gc":
